@@ -1,7 +1,7 @@
 (* PESound.v — soundness of the partial evaluator peval (property C13).
    Small lemmas per peval arm; the main theorem is the dispatching induction. *)
 From Coq Require Import Lia.
-From Cedar Require Import PE ValueProofs.
+From Cedar Require Import PE ValueProofs PEProofs.
 
 (* ---- induction principle for expressions with the nested lists ---- *)
 Section ExprInd.
@@ -195,16 +195,6 @@ End Sound.
 (* ------------------------------------------------------------------------------------------ *)
 (* peval is sound for every complete, well-typed substitution sg that extends the mapper mu     *)
 (* ------------------------------------------------------------------------------------------ *)
-(* the constructs covered by peval_sound_fragment *)
-Fixpoint in_fragment (e : expr) : bool :=
-  match e with
-  | Lit _ | Var _ | Slot _ | Unknown _ _ => true
-  | And a b | Or a b | BinApp _ a b => in_fragment a && in_fragment b
-  | If c t f => in_fragment c && in_fragment t && in_fragment f
-  | UnApp _ a | Like a _ | Is a _ => in_fragment a
-  | _ => false
-  end.
-
 Section Frag.
   Variable sg mu : mapper.
   Variable sl : slotenv.
@@ -571,25 +561,360 @@ Section Frag.
     - exact I.
   Qed.
 
-  (* ---- the dispatching induction ---- *)
-  Theorem peval_sound_fragment e : in_fragment e = true -> wt e = true -> sound_pres (pe e) e.
+
+  (* ---- list-valued arms: set / record literals, extension calls ---- *)
+  Lemma cons_agree (a b : res value) (la lb : res (list value)) : agree a b -> agree la lb ->
+    agree (do v <- a; do vs <- la; Ok (v :: vs)) (do v <- b; do vs <- lb; Ok (v :: vs)).
   Proof.
-    induction e using expr_ind'; intros F W; cbn [in_fragment] in F; try discriminate F.
+    intros H1 H2. destruct a, b; cbn in H1; try contradiction; subst; cbn [bind]; [|exact I].
+    apply agree_bind. exact H2.
+  Qed.
+
+  Definition sound_plist (pl : plist) (items : list expr) : Prop :=
+    match pl with
+    | PLErr _ => exists x, mapM ev (map S items) = Err x
+    | PLOut => True
+    | PLOk l =>
+        (forall vs, all_vals l = Some vs -> mapM ev (map S items) = Ok vs) /\
+        (forall xs, to_exprs l = Some xs ->
+                    agree (mapM ev (map S xs)) (mapM ev (map S items)) /\ forallb wt xs = true /\
+                    length xs = length items)
+    end.
+
+  Lemma pmapM_sound f items :
+    Forall (fun x => sound_pres (f x) x) items -> sound_plist (pmapM f items) items.
+  Proof.
+    induction 1 as [|x l Hx Hl IH]; [cbn; split; intros ? E; inversion E; cbn; auto|].
+    cbn [pmapM]. unfold sound_pres in Hx.
+    destruct (f x) as [v|r|e|]; cbn [sound_res] in Hx.
+    - destruct (pmapM f l) as [pl|e|]; cbn [sound_plist map mapM] in *; try rewrite Hx; cbn [bind]; auto.
+      + destruct IH as [IH1 IH2]. split.
+        * intros vs E. cbn [all_vals] in E. destruct (all_vals pl) as [vs'|]; [|discriminate]. inversion E; subst.
+          rewrite (IH1 vs' eq_refl). reflexivity.
+        * intros xs E. cbn [to_exprs] in E. destruct (v2e v) as [e0|] eqn:V; [|discriminate].
+          destruct (to_exprs pl) as [xs'|]; [|discriminate]. inversion E; subst.
+          destruct (IH2 xs' eq_refl) as [A [W Ln]]. cbn [map mapM forallb length].
+          rewrite (v2e_sound sg sl q es v e0 V), (v2e_wt sg sl q es v e0 V), W, Ln. cbn [bind].
+          split; [apply agree_bind; exact A | split; reflexivity].
+      + destruct IH as [y IH]. rewrite IH. cbn. eauto.
+    - destruct Hx as [Hx Wr].
+      destruct (pmapM f l) as [pl|e|]; cbn [sound_plist map mapM] in *; auto.
+      + destruct IH as [IH1 IH2]. split.
+        * intros vs E. discriminate E.
+        * intros xs E. cbn [to_exprs] in E. destruct (to_exprs pl) as [xs'|]; [|discriminate]. inversion E; subst.
+          destruct (IH2 xs' eq_refl) as [A [W Ln]]. cbn [map mapM forallb length]. rewrite Wr, W, Ln.
+          split; [apply cons_agree; assumption | split; reflexivity].
+      + destruct IH as [y IH]. rewrite IH. destruct (ev (S x)); cbn; eauto.
+    - destruct Hx as [y Hx]. cbn [sound_plist map mapM]. rewrite Hx. cbn. eauto.
+    - exact I.
+  Qed.
+
+  Lemma pmapM_rec_map f items : pmapM_rec f items = pmapM f (map snd items).
+  Proof.
+    induction items as [|[k x] l IH]; [reflexivity|]. cbn [pmapM_rec pmapM map snd]. rewrite IH. reflexivity.
+  Qed.
+
+  Lemma finish_sound pl items mkv mke (k : list value -> res value) :
+    sound_plist pl items ->
+    (forall vs, sound_res (mkv vs) (k vs)) ->
+    (forall xs, length xs = length items ->
+                ev (S (mke xs)) = (do vs <- mapM ev (map S xs); k vs) /\ wt (mke xs) = forallb wt xs) ->
+    sound_res (finish pl mkv mke) (do vs <- mapM ev (map S items); k vs).
+  Proof.
+    intros H Hv He. unfold finish. destruct pl as [l|e|]; cbn [sound_plist] in H.
+    - destruct H as [H1 H2]. destruct (all_vals l) as [vs|].
+      + rewrite (H1 vs eq_refl). cbn [bind]. apply Hv.
+      + destruct (to_exprs l) as [xs|]; [|exact I]. destruct (H2 xs eq_refl) as [A [W Ln]].
+        destruct (He xs Ln) as [E1 E2]. cbn [sound_res]. rewrite E1, E2. split; [apply agree_bind; exact A | exact W].
+    - destruct H as [y H]. rewrite H. cbn. eauto.
+    - exact I.
+  Qed.
+
+  Lemma arm_set f items :
+    Forall (fun x => sound_pres (f x) x) items ->
+    sound_res (finish (pmapM f items) (fun vs => PV (VSet vs)) SetE) (ev (S (SetE items))).
+  Proof.
+    intros H. cbn [subst]. rewrite eval_set.
+    apply finish_sound; [apply pmapM_sound; exact H | intros vs; reflexivity |].
+    intros xs _. cbn [subst]. rewrite eval_set, wt_set. split; reflexivity.
+  Qed.
+
+  Lemma arm_ext f fn items :
+    Forall (fun x => sound_pres (f x) x) items ->
+    sound_res (finish (pmapM f items) (fun vs => of_res (call_ext fn vs)) (ExtCall fn)) (ev (S (ExtCall fn items))).
+  Proof.
+    intros H. cbn [subst]. rewrite eval_ext.
+    apply finish_sound; [apply pmapM_sound; exact H | intros vs; apply sound_of_res |].
+    intros xs _. cbn [subst]. rewrite eval_ext, wt_ext. split; reflexivity.
+  Qed.
+
+  Lemma combine_fst_snd {A B} (ks : list A) (xs : list B) :
+    length xs = length ks -> map fst (combine ks xs) = ks /\ map snd (combine ks xs) = xs.
+  Proof.
+    revert xs. induction ks as [|k ks IH]; intros [|x xs] L; cbn in *; try discriminate; auto.
+    destruct (IH xs ltac:(lia)) as [E1 E2]. rewrite E1, E2. auto.
+  Qed.
+
+  Lemma arm_record f items :
+    Forall (fun x => sound_pres (f x) x) (map snd items) ->
+    sound_res (finish (pmapM_rec f items) (fun vs => PV (VRecord (zip_keys items vs)))
+                      (fun xs => RecordE (zip_keys items xs)))
+              (ev (S (RecordE items))).
+  Proof.
+    intros H. rewrite subst_record, eval_record, map_fst_subst, map_snd_subst, pmapM_rec_map.
+    apply (finish_sound _ (map snd items) _ _ (fun vs => Ok (VRecord (combine (map fst items) vs))));
+      [apply pmapM_sound; exact H | intros vs; reflexivity |].
+    intros xs Ln. unfold zip_keys. rewrite subst_record, eval_record, wt_record, map_fst_subst, map_snd_subst.
+    rewrite map_length in Ln.
+    destruct (combine_fst_snd (map fst items) xs ltac:(rewrite map_length; exact Ln)) as [A B0].
+    rewrite A, B0. split; reflexivity.
+  Qed.
+
+  (* ---- projectable residual records ---- *)
+  Lemma proj_list_closed (l : list expr) :
+    (fix go (l : list expr) : bool := match l with [] => true | x :: l' => is_projectable x && go l' end) l
+    = forallb is_projectable l.
+  Proof. induction l as [|x l IH]; [reflexivity|]. cbn [forallb]. rewrite <- IH. reflexivity. Qed.
+  Lemma proj_record l : is_projectable (RecordE l) = forallb is_projectable (map snd l).
+  Proof.
+    cbn [is_projectable]. induction l as [|[k x] l IH]; [reflexivity|]. cbn [map forallb snd]. rewrite <- IH. reflexivity.
+  Qed.
+
+  (* a projectable, well-typed expression cannot fail *)
+  Lemma projectable_total r : is_projectable r = true -> wt r = true -> exists v, ev (S r) = Ok v.
+  Proof.
+    induction r using expr_ind'; intros P W; try discriminate P.
+    - eexists; reflexivity.
+    - eexists; reflexivity.
+    - cbn [wt_expr subst] in *. destruct (sg n) as [v|]; [|discriminate]. destruct (v2e v) as [x|] eqn:V; [|discriminate].
+      exists v. apply (v2e_props sg sl q es v x V).
+    - cbn [is_projectable] in P. rewrite proj_list_closed in P. rewrite wt_set in W. cbn [subst]. rewrite eval_set.
+      assert (L : exists vs, mapM ev (map S items) = Ok vs).
+      { induction H as [|x l Hx Hl IH]; [eexists; reflexivity|]. cbn [forallb] in P, W.
+        apply andb_prop in P. destruct P as [P1 P2]. apply andb_prop in W. destruct W as [W1 W2].
+        destruct (Hx P1 W1) as [v E]. destruct (IH P2 W2) as [vs E']. cbn [map mapM]. rewrite E, E'. eexists; reflexivity. }
+      destruct L as [vs E]. rewrite E. eexists; reflexivity.
+    - rewrite proj_record in P. rewrite wt_record in W. rewrite subst_record, eval_record, map_snd_subst.
+      assert (L : exists vs, mapM ev (map S (map snd items)) = Ok vs).
+      { induction H as [|x l Hx Hl IH]; [eexists; reflexivity|]. cbn [forallb] in P, W.
+        apply andb_prop in P. destruct P as [P1 P2]. apply andb_prop in W. destruct W as [W1 W2].
+        destruct (Hx P1 W1) as [v E]. destruct (IH P2 W2) as [vs E']. cbn [map mapM]. rewrite E, E'. eexists; reflexivity. }
+      destruct L as [vs E]. rewrite E. eexists; reflexivity.
+  Qed.
+
+  (* the value of a record literal, attribute by attribute *)
+  Lemma record_lookup (m : list (str * expr)) a : forall vs,
+    mapM ev (map S (map snd m)) = Ok vs ->
+    match lookup a m with
+    | None => lookup a (combine (map fst m) vs) = None
+    | Some y => exists v, lookup a (combine (map fst m) vs) = Some v /\ ev (S y) = Ok v
+    end.
+  Proof.
+    induction m as [|[k x] m IH]; intros vs E; [reflexivity|].
+    cbn [map mapM fst snd] in E. destruct (ev (S x)) as [v|] eqn:Ex; cbn [bind] in E; [|discriminate].
+    destruct (mapM ev (map S (map snd m))) as [vs'|] eqn:E'; cbn [bind] in E; [|discriminate]. inversion E; subst.
+    cbn [lookup map fst combine]. destruct (str_eqb a k).
+    - exists v. auto.
+    - apply IH. reflexivity.
+  Qed.
+
+  Lemma has_key_record (m : list (str * expr)) a vs :
+    mapM ev (map S (map snd m)) = Ok vs -> has_key a (combine (map fst m) vs) = has_key a m.
+  Proof.
+    intros E. pose proof (record_lookup m a vs E) as H. unfold has_key.
+    destruct (lookup a m); [destruct H as [v [H _]]|]; rewrite H; reflexivity.
+  Qed.
+
+  Lemma lookup_wt (m : list (str * expr)) a y :
+    forallb wt (map snd m) = true -> lookup a m = Some y -> wt y = true.
+  Proof.
+    induction m as [|[k x] m IH]; [discriminate|]. cbn [map forallb snd lookup]. intros W L.
+    apply andb_prop in W. destruct W as [W1 W2]. destruct (str_eqb a k); [inversion L; subst; exact W1 | auto].
+  Qed.
+
+  (* partial_interpret restricted to projectable expressions *)
+  Lemma proj_sound y : wt y = true -> sound_pres (peval_proj mu pq y) y.
+  Proof.
+    induction y using expr_ind'; intros W; try exact I.
+    - reflexivity.
+    - apply Hvar.
+    - apply arm_unknown. exact W.
+    - cbn [peval_proj]. apply arm_set. rewrite wt_set in W.
+      induction H as [|x l Hx Hl IH]; constructor; cbn [forallb] in W; apply andb_prop in W; destruct W; auto.
+    - cbn [peval_proj]. apply arm_record. rewrite wt_record in W.
+      induction H as [|x l Hx Hl IH]; constructor; cbn [forallb] in W; apply andb_prop in W; destruct W; auto.
+  Qed.
+
+  (* ---- getAttr / hasAttr ---- *)
+  Lemma arm_getattr x a : sound_pres (pe x) x -> sound_pres (pe (GetAttr x a)) (GetAttr x a).
+  Proof.
+    unfold sound_pres. cbn [peval subst]. rewrite ev_getattr.
+    destruct (pe x) as [v|r|e|]; cbn [sound_res]; intros H; auto.
+    - rewrite H. cbn [bind]. destruct v as [[| | |u]|l|l|]; try (cbn; eauto; fail).
+      + (* entity *)
+        cbn [get_attr]. pose proof (Hstore u) as St. destruct (find_pentity u pes) as [pd|].
+        * destruct St as [d [F [_ [_ At]]]]. rewrite F. specialize (At a). unfold attr_complete in At.
+          destruct (lookup a (pattrs pd)) as [[v|e]|].
+          -- rewrite At. reflexivity.
+          -- destruct At as [v [L [E W]]]. rewrite L.
+             assert (G : sound_res (PR e) (Ok v)) by (cbn; rewrite E; split; [reflexivity | exact W]).
+             destruct e; try exact G. cbn [peval_entity_attr]. rewrite <- E. apply arm_unknown. exact W.
+          -- rewrite At. cbn. eauto.
+        * rewrite St. cbn. eauto.
+      + (* record *)
+        cbn [get_attr]. destruct (lookup a l); cbn; eauto.
+    - destruct H as [H W].
+      assert (G : sound_res (PR (GetAttr r a)) (do v <- ev (S x); get_attr es v a)).
+      { cbn [sound_res subst wt_expr]. rewrite ev_getattr. split; [apply agree_bind; exact H | exact W]. }
+      destruct r; try exact G.
+      (* the residual is a record literal *)
+      rewrite subst_record, eval_record, map_snd_subst, map_fst_subst in H.
+      destruct (is_projectable (RecordE items)) eqn:P.
+      + destruct (projectable_total _ P W) as [rv E]. rewrite subst_record, eval_record, map_snd_subst, map_fst_subst in E.
+        destruct (mapM ev (map S (map snd items))) as [vs|] eqn:M; cbn [bind] in E, H; [|discriminate].
+        apply agree_sym, agree_ok_r in H. rewrite H. cbn [bind get_attr].
+        pose proof (record_lookup items a vs M) as L. destruct (lookup a items) as [y|] eqn:LK.
+        * destruct L as [v [L E']]. rewrite L. rewrite <- E'. apply proj_sound.
+          rewrite wt_record in W. exact (lookup_wt items a y W LK).
+        * rewrite L. cbn. eauto.
+      + destruct (has_key a items) eqn:K; [exact G|].
+        destruct (mapM ev (map S (map snd items))) as [vs|] eqn:M; cbn [bind] in H.
+        * apply agree_sym, agree_ok_r in H. rewrite H. cbn [bind get_attr].
+          rewrite <- (has_key_record items a vs M) in K. unfold has_key in K.
+          destruct (lookup a (combine (map fst items) vs)); [discriminate|]. cbn. eauto.
+        * destruct (ev (S x)); cbn in H; [contradiction|]. cbn. eauto.
+    - destruct H as [y H]. rewrite H. cbn. eauto.
+  Qed.
+
+
+  Lemma has_key_complete pd d a :
+    (forall k, attr_complete (lookup k (pattrs pd)) (lookup k (eattrs d))) ->
+    has_key a (eattrs d) = has_key a (pattrs pd).
+  Proof.
+    intros At. specialize (At a). unfold has_key, attr_complete in *.
+    destruct (lookup a (pattrs pd)) as [[v|e]|]; [| destruct At as [v [At _]] |]; rewrite At; reflexivity.
+  Qed.
+
+  Lemma arm_hasattr x a : sound_pres (pe x) x -> sound_pres (pe (HasAttr x a)) (HasAttr x a).
+  Proof.
+    unfold sound_pres. cbn [peval subst]. rewrite ev_hasattr.
+    destruct (pe x) as [v|r|e|]; cbn [sound_res]; intros H; auto.
+    - rewrite H. cbn [bind]. destruct v as [[| | |u]|l|l|]; try (cbn; eauto; fail).
+      cbn [has_attr]. pose proof (Hstore u) as St. destruct (find_pentity u pes) as [pd|].
+      + destruct St as [d [F [_ [_ At]]]]. rewrite F. cbn [sound_res]. rewrite (has_key_complete pd d a At). reflexivity.
+      + rewrite St. reflexivity.
+    - destruct H as [H W].
+      assert (G : sound_res (PR (HasAttr r a)) (do v <- ev (S x); has_attr es v a)).
+      { cbn [sound_res subst wt_expr]. rewrite ev_hasattr. split; [apply agree_bind; exact H | exact W]. }
+      destruct r; try exact G.
+      destruct (is_projectable (RecordE items)) eqn:P; [|exact G].
+      destruct (projectable_total _ P W) as [rv E].
+      rewrite subst_record, eval_record, map_snd_subst, map_fst_subst in E, H.
+      destruct (mapM ev (map S (map snd items))) as [vs|] eqn:M; cbn [bind] in E, H; [|discriminate].
+      apply agree_sym, agree_ok_r in H. rewrite H. cbn [bind has_attr sound_res].
+      rewrite (has_key_record items a vs M). reflexivity.
+    - destruct H as [y H]. rewrite H. cbn. eauto.
+  Qed.
+
+  (* ---- the dispatching induction: every construct of the expression language ---- *)
+  Lemma Forall_wt (P : expr -> Prop) l :
+    Forall (fun x => wt x = true -> P x) l -> forallb wt l = true -> Forall P l.
+  Proof.
+    induction 1 as [|x l Hx Hl IH]; intros W; constructor; cbn [forallb] in W; apply andb_prop in W; destruct W; auto.
+  Qed.
+
+  Theorem peval_sound e : wt e = true -> sound_pres (pe e) e.
+  Proof.
+    induction e using expr_ind'; intros W.
     - apply arm_lit.
     - apply Hvar.
     - apply arm_slot.
     - apply arm_unknown. exact W.
     - cbn [wt_expr] in W. apply andb_prop in W. destruct W as [W W3]. apply andb_prop in W. destruct W as [W1 W2].
-      apply andb_prop in F. destruct F as [F F3]. apply andb_prop in F. destruct F as [F1 F2].
       apply arm_if; auto.
-    - cbn [wt_expr] in W. apply andb_prop in W. destruct W as [W1 W2]. apply andb_prop in F. destruct F as [F1 F2].
-      apply arm_and; auto.
-    - cbn [wt_expr] in W. apply andb_prop in W. destruct W as [W1 W2]. apply andb_prop in F. destruct F as [F1 F2].
-      apply arm_or; auto.
+    - cbn [wt_expr] in W. apply andb_prop in W. destruct W as [W1 W2]. apply arm_and; auto.
+    - cbn [wt_expr] in W. apply andb_prop in W. destruct W as [W1 W2]. apply arm_or; auto.
     - apply arm_unapp; auto.
-    - cbn [wt_expr] in W. apply andb_prop in W. destruct W as [W1 W2]. apply andb_prop in F. destruct F as [F1 F2].
-      apply arm_binapp; auto.
+    - cbn [wt_expr] in W. apply andb_prop in W. destruct W as [W1 W2]. apply arm_binapp; auto.
+    - unfold sound_pres. cbn [peval]. apply arm_ext. rewrite wt_ext in W. apply Forall_wt; assumption.
+    - apply arm_getattr; auto.
+    - apply arm_hasattr; auto.
     - apply arm_like; auto.
     - apply arm_is; auto.
+    - unfold sound_pres. cbn [peval]. apply arm_set. rewrite wt_set in W. apply Forall_wt; assumption.
+    - unfold sound_pres. cbn [peval]. apply arm_record. rewrite wt_record in W. apply Forall_wt; assumption.
   Qed.
 End Frag.
+
+(* ---- lifted to policies: the status the authorizer loop records is sound ---- *)
+(* the concrete outcome of the policy under the substitution: evaluate (sg condition) *)
+Definition eval_policy_subst (sg : mapper) (q : request) (es : entities) (p : policy) : res bool :=
+  do v <- eval (penv p) q es (subst sg (pcondition p)); as_bool v.
+
+Lemma policy_status_sound (sg mu : mapper) pq pes q es p :
+  (forall n v, mu n = Some v -> sg n = Some v) ->
+  (forall sl v, sound_pres sg sl q es (peval_var pq v) (Var v)) ->
+  (forall sl, store_complete sg sl pes q es) ->
+  wt_expr sg (pcondition p) = true ->
+  peval_policy mu (penv p) pq pes p <> SOut ->
+  status_sound (peval_policy mu (penv p) pq pes p) (eval_policy_subst sg q es p).
+Proof.
+  intros Hmu Hvar Hst W N.
+  pose proof (peval_sound sg mu (penv p) pq pes q es Hmu (Hvar (penv p)) (Hst (penv p)) (pcondition p) W) as H.
+  unfold peval_policy, eval_policy_subst, sound_pres in *.
+  destruct (peval mu (penv p) pq pes (pcondition p)) as [v|r|e|]; cbn [sound_res] in H.
+  - rewrite H. cbn [bind]. destruct (as_bool v) as [[|]|]; cbn; eauto.
+  - exact I.
+  - destruct H as [x H]. rewrite H. cbn. eauto.
+  - congruence.
+Qed.
+
+(* (q, es) is a sg-completion of (pq, pes), and sg is complete and well-typed for the policies ps
+   (whose partial evaluation stays inside the model) *)
+Definition completion (sg : mapper) (pq : prequest) (pes : pentities) (q : request) (es : entities)
+                      (ps : list policy) : Prop :=
+  (forall sl v, sound_pres sg sl q es (peval_var pq v) (Var v)) /\
+  (forall sl, store_complete sg sl pes q es) /\
+  (forall p, In p ps -> wt_expr sg (pcondition p) = true /\
+                        peval_policy no_mapping (penv p) pq pes p <> SOut).
+
+(* glue: instantiate the view lemmas with the proved per-policy soundness *)
+Lemma completion_sound sg pq pes q es ps :
+  completion sg pq pes q es ps ->
+  forall p, In p ps -> status_sound (peval_policy no_mapping (penv p) pq pes p) (eval_policy_subst sg q es p).
+Proof.
+  intros [Hv [Hs Hp]] p I. destruct (Hp p I) as [W N].
+  apply policy_status_sound; auto. intros n v E; discriminate E.
+Qed.
+
+Lemma decision_final sg pq pes q es ps d :
+  completion sg pq pes q es ps ->
+  pdecision (pitems (is_authorized_partial ps pq pes)) = Some d ->
+  rdecision (authorize_with (eval_policy_subst sg q es) ps) = d.
+Proof.
+  intros C. apply decision_sound. intros p I. apply status_sound_weak. apply (completion_sound _ _ _ _ _ _ C p I).
+Qed.
+
+Lemma determining_final sg pq pes q es ps i :
+  completion sg pq pes q es ps ->
+  (In i (must_be_determining (pitems (is_authorized_partial ps pq pes))) ->
+   In i (rreasons (authorize_with (eval_policy_subst sg q es) ps))) /\
+  (In i (rreasons (authorize_with (eval_policy_subst sg q es) ps)) ->
+   In i (may_be_determining (pitems (is_authorized_partial ps pq pes)))).
+Proof.
+  intros C. split; [apply must_sound | apply may_sound];
+    intros p I; apply status_sound_weak; apply (completion_sound _ _ _ _ _ _ C p I).
+Qed.
+
+Lemma definitely_final sg pq pes q es ps i :
+  completion sg pq pes q es ps ->
+  (In i (definitely_satisfied (pitems (is_authorized_partial ps pq pes))) ->
+   exists p, In p ps /\ pid p = i /\ eval_policy_subst sg q es p = Ok true) /\
+  (In i (definitely_errored (pitems (is_authorized_partial ps pq pes))) ->
+   exists p e, In p ps /\ pid p = i /\ eval_policy_subst sg q es p = Err e) /\
+  (In i (trivially_false (pitems (is_authorized_partial ps pq pes))) ->
+   exists p, In p ps /\ pid p = i /\ eval_policy_subst sg q es p = Ok false).
+Proof.
+  intros C. repeat split; [apply satisfied_sound | apply errored_sound | apply false_sound];
+    intros p I; apply (completion_sound _ _ _ _ _ _ C p I).
+Qed.
